@@ -377,4 +377,122 @@ def h2InitStream (h2r : ReqSt) (swin : Nat) (s : ReqSt) : ReqSt :=
                          | .h2r n => .h2r n,
            conf := h2r.conf }
 
+/-! ### every member of `struct request_st` and `struct connection`, classified
+
+The member lists come from the C declarations (clang AST, Extracted/ReqConst.lean); Props/C08.lean
+proves that the tables below cover them exactly, so a member added to or removed from either
+struct fails the build until it has been classified here. -/
+
+inductive FieldClass
+  | live        -- restored by request_reset()                                   (field of `ReqLive`)
+  | kept        -- kept by request_reset(), restored by request_reset_ex()       (field of `ReqKept`)
+  | carried     -- restored by neither; modelled, typed out of the response path (field of `ReqStale`)
+  | const       -- written by request_init_data() / connection_init() only
+  | scratch     -- no model field: written before it is read on every path that reads it (argument in the note)
+  | conn        -- connection member the model has (`Conn`)
+  | connOutside -- connection member the model does not have: socket, timers, I/O plumbing, list links,
+                -- module state per connection; may legitimately persist for the life of the connection
+deriving Repr, DecidableEq
+
+/-- (C member, class, model field(s) or note) -/
+def requestStClass : List (String × FieldClass × String) := [
+  ("state", .carried, "state"),
+  ("http_status", .live, "httpStatus"),
+  ("x.h2.state", .carried, "x0"),
+  ("x.h2.id", .carried, "x0"),
+  ("x.h2.rwin", .carried, "x1"),
+  ("x.h2.swin", .carried, "x1"),
+  ("x.h2.rwin_fudge", .live, "x2"),
+  ("x.h2.prio", .live, "x2"),
+  ("x.h1.bytes_written_ckpt", .carried, "x0"),
+  ("x.h1.bytes_read_ckpt", .carried, "x1"),
+  ("x.h1.te_chunked", .live, "x2"),
+  ("http_method", .live, "method"),
+  ("http_version", .live, "version"),
+  ("handler_module", .live, "handlerModule"),
+  ("plugin_ctx", .live, "pluginCtx"),
+  ("con", .const, "back pointer"),
+  ("conditional_is_valid", .carried, "conValid"),
+  ("cond_cache", .carried, "condCache"),
+  ("cond_match", .carried, "condMatch"),
+  ("cond_match_data", .scratch, "capture storage; reachable only through cond_match[i], which is set by the match that fills it"),
+  ("conf", .live, "conf"),
+  ("rqst_header_len", .live, "rqstHeaderLen"),
+  ("rqst_htags", .live, "rqstHtags"),
+  ("rqst_headers", .live, "rqstHeaders"),
+  ("uri", .kept, "uriAuthority uriPath uriQuery; live: uriScheme"),
+  ("physical", .kept, "physPath physRelPath; carried: physDocRoot physBasedir physPathPtr physPathBig"),
+  ("env", .live, "env"),
+  ("reqbody_length", .live, "reqbodyLength"),
+  ("resp_body_scratchpad", .live, "respBodyScratchpad"),
+  ("http_host", .live, "httpHost"),
+  ("server_name", .kept, "serverName"),
+  ("target", .live, "target"),
+  ("target_orig", .kept, "targetOrig"),
+  ("pathinfo", .live, "pathinfo"),
+  ("server_name_buf", .carried, "serverNameBuf"),
+  ("dst_addr", .carried, "dstOwn"),
+  ("dst_addr_buf", .carried, "dstOwn"),
+  ("resp_header_len", .live, "respHeaderLen"),
+  ("resp_htags", .live, "respHtags"),
+  ("resp_headers", .live, "respHeaders"),
+  ("resp_body_finished", .live, "respBodyFinished"),
+  ("resp_body_started", .live, "respBodyStarted"),
+  ("resp_send_chunked", .live, "respSendChunked"),
+  ("resp_decode_chunked", .live, "respDecodeChunked"),
+  ("resp_header_repeated", .live, "respHeaderRepeated"),
+  ("loops_per_request", .live, "loopsPerRequest"),
+  ("keep_alive", .live, "keepAlive"),
+  ("async_callback", .live, "asyncCallback"),
+  ("tmp_buf", .const, "pointer to the server-wide scratch buffer; its contents are scratch (users clear before use)"),
+  ("gw_dechunk", .live, "gwDechunk"),
+  ("start_hp", .scratch, "timestamp written when the first byte of a request arrives (connections.c, h1.c, h2.c) before any read; feeds logs / timeouts, not the response"),
+  ("error_handler_saved_status", .live, "errorHandlerSavedStatus"),
+  ("error_handler_saved_method", .carried, "errorHandlerSavedMethod"),
+  ("write_queue", .live, "writeQueue"),
+  ("read_queue", .carried, "readQueue"),
+  ("reqbody_queue", .live, "reqbodyQueue"),
+  ("tmp_sce", .scratch, "written by http_response_physical_path_check() (response.c) before its only readers, the handle_subrequest_start hooks of mod_staticfile / mod_cgi, which also compare its name with physical.path"),
+  ("cond_captures", .const, "SrvEnv.nCaptures"),
+  ("h2_connect_ext", .live, "h2ConnectExt")]
+
+def connectionClass : List (String × FieldClass × String) := [
+  ("request", .conn, "Conn.r"),
+  ("request_count", .conn, "Conn.requestCount"),
+  ("fd", .conn, "Conn.isOpen (fd != -1)"),
+  ("hx", .connOutside, "HTTP/2 connection state (HPACK tables, windows, GOAWAY): properties C05 / C06 / C07"),
+  ("fdn", .connOutside, "event registration"),
+  ("jqnext", .connOutside, "job queue link"),
+  ("is_readable", .connOutside, "socket readiness"),
+  ("is_writable", .connOutside, "socket readiness"),
+  ("is_ssl_sock", .connOutside, "set on accept from the listening socket"),
+  ("traffic_limit_reached", .connOutside, "throttling"),
+  ("revents_err", .connOutside, "socket error events"),
+  ("proto_default_port", .connOutside, "set on accept; mod_extforward overwrites it from X-Forwarded-Proto and nothing restores it: known finding KF1, seen by the end-to-end history stream only"),
+  ("write_queue", .connOutside, "pointer to request.write_queue"),
+  ("read_queue", .connOutside, "pointer to request.read_queue"),
+  ("bytes_written_cur_second", .connOutside, "throttling"),
+  ("network_write", .connOutside, "I/O function"),
+  ("network_read", .connOutside, "I/O function"),
+  ("reqbody_read", .connOutside, "I/O function"),
+  ("fn", .connOutside, "protocol dispatch table"),
+  ("srv", .connOutside, "back pointer"),
+  ("plugin_slots", .connOutside, "back pointer"),
+  ("plugin_ctx", .connOutside, "module state per connection (TLS, mod_extforward): end-to-end streams only"),
+  ("config_data_base", .connOutside, "back pointer"),
+  ("dst_addr", .connOutside, "peer address, set on accept (mod_extforward swaps r->dst_addr, not this)"),
+  ("dst_addr_buf", .connOutside, "peer address text, set on accept"),
+  ("srv_socket", .connOutside, "listening socket"),
+  ("read_idle_ts", .connOutside, "timer"),
+  ("close_timeout_ts", .connOutside, "timer"),
+  ("write_request_ts", .connOutside, "timer"),
+  ("connection_start", .connOutside, "timer"),
+  ("keep_alive_idle", .connOutside, "timer setting, copied from the configuration at the end of each request"),
+  ("next", .connOutside, "list link"),
+  ("prev", .connOutside, "list link")]
+
+/-- the two lists name the same things (each exactly once on the left) -/
+def sameNames (members : List String) (table : List (String × FieldClass × String)) : Bool :=
+  members.all (fun m => (table.filter (·.1 = m)).length = 1) && table.all (fun t => members.contains t.1)
+
 end LtVerif.Req
